@@ -561,6 +561,17 @@ static void fixed(E& e) {
     e.emit_pbool(1, bool(e.v[1]));
   }
   e.fill(0); e.emit_pbool(2, bool(e.v[2]));
+  // a single non-zero residue with a single bit set, every bit position (word-part-blind reductions)
+  for (int b = 0; b < (int)(8 * sizeof(T)) - 2; b++) {
+    size_t k = (size_t)(b * 5 + 1) %% E::N, cm = k / %(deg)d, i = k %% %(deg)d;
+    T val = (T)((T)1 << b);
+    if (val >= xr::modp<T>(cm)) continue;
+    e.fill_zero(); e.set(0, cm, i, val);
+    e.emit_pbool(0, bool(e.v[0]));
+    // and the upper-half-only mask of p-1
+    e.fill_zero(); e.set(0, cm, i, (T)((xr::modp<T>(cm) - 1) & ~(((T)1 << (4 * sizeof(T))) - 1)));
+    if (b %% 8 == 0) e.emit_pbool(0, bool(e.v[0]));
+  }
   // poly_p on identical storage: copies share the pointer
   for (int rep = 0; rep < 3; rep++) {
     e.fill(rep);
